@@ -289,6 +289,10 @@ pub broadcast axiom fn axiom_empty_slice_ok<I: Input + ?Sized>(input: &I, pos: u
 //@  |             let ghost mut laid = false;
 //@  after 1 "let p = layout_parser.parse_with_context(context, input);"
 //@  |                     proof { laid = true; }
+//@  before 1 "continue;"
+//@  |                             // [C14] with a Layout rule the layout stored in front of the next token is what the layout parser returned,
+//@  |                             // and the loop goes round again only because something was consumed
+//@  |                             assert(context.v_layout_ahead() == Some(layout) && layout.v_len() > 0 && context.v_state() == st0); // [C14]
 //@  before 1 "let stop_kind = <TK as Default>::default();"
 //@  |                 // [C02] "synthetic STOP only when no expected token matches": the error / STOP decision is taken only after the
 //@  |                 // layout parser, if there is one, has been tried at this position -- so enabling partial parsing cannot end the
